@@ -198,4 +198,7 @@ pub fn run(ctx: &mut Ctx) {
         }
     });
     ctx.require(&r, &["negative_interval", "non_negative_interval"]);
+    // hidden state: every ordered pair of operation calls on a fresh thread against the lone call (no model involved)
+    let hist_calls = crate::histpairs::calls_ops(false, &|op| { use crate::optable::Op::*; op.sig().0 == 1 || matches!(op, IToTime | ISubTime) });
+    crate::histpairs::pairwise(ctx, "C12", "time_of_day_arithmetic", hist_calls);
 }
